@@ -393,7 +393,10 @@ CALL_ERR_RE = re.compile(r'^err:[cs]:(\d+|-):[A-Za-z]+$')
 
 class P(Property):
     id = 'C06'
-    gen_modules = ['gen_panicsites']
+    # every generated-facts file in the Coq closure of Properties/C06.v is regenerated from the working tree on each run
+    gen_modules = ['gen_panicsites', 'gen_varint', 'gen_codes', 'gen_datagram', 'gen_frames', 'gen_headers', 'gen_huffman',
+                   'gen_huffman_enc', 'gen_bitwin', 'gen_prefixint', 'gen_prefixstring', 'gen_qstateless', 'gen_settings',
+                   'gen_sharederr', 'gen_static', 'gen_unistreams']
     properties_v = 'Properties/C06.v'
     model_targets = ['Spec/C06Liveness.vo']
     extract_v = 'Extract/ExtractC06.v'
